@@ -19,8 +19,8 @@ import (
 
 func init() { Register(Area{Name: "Randz", Gen: genRandz}) }
 
-// arrayLen returns the length of a package-level `var name [N]T`.
-func arrayLen(p *Pkg, name string) (*big.Int, error) {
+// rzArrayLen returns the length of a package-level `var name [N]T`.
+func rzArrayLen(p *Pkg, name string) (*big.Int, error) {
 	for _, f := range p.Files {
 		for _, d := range f.Decls {
 			g, ok := d.(*ast.GenDecl)
@@ -45,8 +45,8 @@ func arrayLen(p *Pkg, name string) (*big.Int, error) {
 	return nil, fmt.Errorf("array %s not found", name)
 }
 
-// initFuncs returns every func init() of the package.
-func initFuncs(p *Pkg) []*ast.FuncDecl {
+// rzInitFuncs returns every func init() of the package.
+func rzInitFuncs(p *Pkg) []*ast.FuncDecl {
 	var out []*ast.FuncDecl
 	for _, f := range p.Files {
 		for _, d := range f.Decls {
@@ -58,12 +58,12 @@ func initFuncs(p *Pkg) []*ast.FuncDecl {
 	return out
 }
 
-// evalLen evaluates an integer expression, additionally understanding len(<package-level array>).
-func evalLen(p *Pkg, e ast.Expr) (*big.Int, error) {
+// rzEvalLen evaluates an integer expression, additionally understanding len(<package-level array>).
+func rzEvalLen(p *Pkg, e ast.Expr) (*big.Int, error) {
 	if c, ok := e.(*ast.CallExpr); ok {
 		if id, ok := c.Fun.(*ast.Ident); ok && id.Name == "len" && len(c.Args) == 1 {
 			if a, ok := c.Args[0].(*ast.Ident); ok {
-				if n, err := arrayLen(p, a.Name); err == nil {
+				if n, err := rzArrayLen(p, a.Name); err == nil {
 					return n, nil
 				}
 			}
@@ -72,11 +72,11 @@ func evalLen(p *Pkg, e ast.Expr) (*big.Int, error) {
 	return Eval(e, p.Env, 0)
 }
 
-// loopBound: the number of iterations' upper bound of
+// rzLoopBound: the number of iterations' upper bound of
 //   for i := range X            (X a package-level array or string constant)      -> len(X)
 //   for i := 0; i < B; i++      (i starts at 0, step 1)                              -> B   (B <= evaluated; `<=` gives B+1)
 // together with the name of the loop variable.
-func loopBound(p *Pkg, s ast.Stmt) (*big.Int, string, error) {
+func rzLoopBound(p *Pkg, s ast.Stmt) (*big.Int, string, error) {
 	switch x := s.(type) {
 	case *ast.RangeStmt:
 		k, ok := x.Key.(*ast.Ident)
@@ -87,7 +87,7 @@ func loopBound(p *Pkg, s ast.Stmt) (*big.Int, string, error) {
 		if !ok {
 			return nil, "", fmt.Errorf("range over a non-identifier")
 		}
-		if n, err := arrayLen(p, id.Name); err == nil {
+		if n, err := rzArrayLen(p, id.Name); err == nil {
 			return n, k.Name, nil
 		}
 		if str, err := p.Str(id.Name); err == nil {
@@ -123,7 +123,7 @@ func loopBound(p *Pkg, s ast.Stmt) (*big.Int, string, error) {
 		if id, ok := c.X.(*ast.Ident); !ok || id.Name != iv.Name {
 			return nil, "", fmt.Errorf("for loop: condition must compare the loop variable")
 		}
-		b, err := evalLen(p, c.Y)
+		b, err := rzEvalLen(p, c.Y)
 		if err != nil {
 			return nil, "", err
 		}
@@ -138,7 +138,7 @@ func loopBound(p *Pkg, s ast.Stmt) (*big.Int, string, error) {
 	return nil, "", fmt.Errorf("not a loop")
 }
 
-func loopBody(s ast.Stmt) *ast.BlockStmt {
+func rzLoopBody(s ast.Stmt) *ast.BlockStmt {
 	switch x := s.(type) {
 	case *ast.RangeStmt:
 		return x.Body
@@ -148,8 +148,8 @@ func loopBody(s ast.Stmt) *ast.BlockStmt {
 	return nil
 }
 
-// isIndexOf reports whether e is `arr[<something>]` and returns the index expression.
-func isIndexOf(e ast.Expr, arr string) (ast.Expr, bool) {
+// rzIsIndexOf reports whether e is `arr[<something>]` and returns the index expression.
+func rzIsIndexOf(e ast.Expr, arr string) (ast.Expr, bool) {
 	ix, ok := e.(*ast.IndexExpr)
 	if !ok {
 		return nil, false
@@ -176,7 +176,7 @@ func genRandz(repo string) (string, error) {
 	}
 	sb.WriteString("(* randz/id.go: const encodeBase32Map *)\n")
 	sb.WriteString(CoqBytes("g_base32_alphabet", []byte(alpha)))
-	tlen, err := arrayLen(p, "decodeBase32Map")
+	tlen, err := rzArrayLen(p, "decodeBase32Map")
 	if err != nil {
 		return "", err
 	}
@@ -185,7 +185,7 @@ func genRandz(repo string) (string, error) {
 
 	// ---- the init() that fills the table: loop 1 = fill with a marker, loop 2 = scatter the alphabet
 	var fill, scatter ast.Stmt
-	for _, fd := range initFuncs(p) {
+	for _, fd := range rzInitFuncs(p) {
 		var loops []ast.Stmt
 		touches := false
 		for _, st := range fd.Body.List {
@@ -210,11 +210,11 @@ func genRandz(repo string) (string, error) {
 	if fill == nil {
 		return "", fmt.Errorf("init() that fills decodeBase32Map not found")
 	}
-	bound, iv, err := loopBound(p, fill)
+	bound, iv, err := rzLoopBound(p, fill)
 	if err != nil {
 		return "", fmt.Errorf("fill loop: %v", err)
 	}
-	fb := loopBody(fill)
+	fb := rzLoopBody(fill)
 	if len(fb.List) != 1 {
 		return "", fmt.Errorf("fill loop: expected one assignment")
 	}
@@ -222,7 +222,7 @@ func genRandz(repo string) (string, error) {
 	if !ok || fas.Tok != token.ASSIGN || len(fas.Lhs) != 1 || len(fas.Rhs) != 1 {
 		return "", fmt.Errorf("fill loop: expected one assignment")
 	}
-	if ix, ok := isIndexOf(fas.Lhs[0], "decodeBase32Map"); !ok {
+	if ix, ok := rzIsIndexOf(fas.Lhs[0], "decodeBase32Map"); !ok {
 		return "", fmt.Errorf("fill loop: does not assign decodeBase32Map[i]")
 	} else if id, ok := ix.(*ast.Ident); !ok || id.Name != iv {
 		return "", fmt.Errorf("fill loop: index is not the loop variable")
@@ -235,16 +235,16 @@ func genRandz(repo string) (string, error) {
 	sb.WriteString(CoqZ("g_decode_init_bound", bound))
 	sb.WriteString(CoqZ("g_decode_fill", marker))
 	// scatter loop: for i := 0; i < len(encodeBase32Map); i++ { decodeBase32Map[encodeBase32Map[i]] = byte(i) }
-	sbound, siv, err := loopBound(p, scatter)
+	sbound, siv, err := rzLoopBound(p, scatter)
 	if err != nil {
 		return "", fmt.Errorf("scatter loop: %v", err)
 	}
-	scb := loopBody(scatter)
+	scb := rzLoopBody(scatter)
 	okShape := false
 	if len(scb.List) == 1 {
 		if as, ok := scb.List[0].(*ast.AssignStmt); ok && as.Tok == token.ASSIGN && len(as.Lhs) == 1 && len(as.Rhs) == 1 {
-			if ix, ok := isIndexOf(as.Lhs[0], "decodeBase32Map"); ok {
-				if ix2, ok := isIndexOf(ix, "encodeBase32Map"); ok {
+			if ix, ok := rzIsIndexOf(as.Lhs[0], "decodeBase32Map"); ok {
+				if ix2, ok := rzIsIndexOf(ix, "encodeBase32Map"); ok {
 					if id, ok := ix2.(*ast.Ident); ok && id.Name == siv {
 						// rhs: byte(i) or i
 						r := as.Rhs[0]
@@ -276,7 +276,7 @@ func genRandz(repo string) (string, error) {
 		switch x := n.(type) {
 		case *ast.IfStmt:
 			if be, ok := x.Cond.(*ast.BinaryExpr); ok && be.Op == token.EQL {
-				if _, ok := isIndexOf(be.X, "decodeBase32Map"); ok {
+				if _, ok := rzIsIndexOf(be.X, "decodeBase32Map"); ok {
 					if v, err := Eval(be.Y, p.Env, 0); err == nil {
 						tested = v
 						nif++
